@@ -108,6 +108,13 @@ def poll_leaf(ip, loc, leaf):
             p.effect('recv-closed', cid)
             return ready(err(Opaque('RecvError')))
         raise Unsupported('oneshot receiver %d polled but the obligation supplies no reply' % cid)
+    if k == 'oneshot.closed':
+        # resolves only once the receiving side has gone away
+        if getattr(p, 'receiver_dropped', False):
+            write_loc(loc, Leaf(k, leaf.data, True))
+            p.effect('ready', k, leaf.data)
+            return ready(UNIT)
+        return PENDING
     if k in ('sleep', 'notified', 'deleted', 'generic'):
         if may_pend(ip, k):
             return PENDING
@@ -219,6 +226,35 @@ def install(ctx):
             p.effect('oneshot.send', s.cid, args[1])
             return ok(UNIT)
         raise Unsupported('send on %r' % (s,))
+
+    @M.reg('Sender::try_send')
+    def sender_try_send(ip, pc, args, dt):
+        s = args[0]
+        if isinstance(s, Ref):
+            s = read_loc(s.loc)
+        if not isinstance(s, SenderM):
+            raise Unsupported('try_send on %r' % (s,))
+        p = ip.path
+        # a bounded mailbox may be full (or closed) at the moment of a non-blocking send
+        k = p.choose(3 if getattr(p, 'allow_closed', False) else 2, 'try_send outcome')
+        if k == 0:
+            p.effect('enqueue', s.kind, s.tok, args[1])
+            hook = getattr(ip.ctx, 'on_enqueue', None)
+            if hook is not None:
+                hook(ip, s, args[1])
+            return ok(UNIT)
+        p.effect('try_send-failed', s.kind, 'full' if k == 1 else 'closed')
+        ev = Enum('TrySendError', 0 if k == 1 else 1, {0: (args[1],), 1: (args[1],)})
+        return err(ev)
+
+    @M.reg('Sender::closed')
+    def sender_closed(ip, pc, args, dt):
+        s = read_loc(args[0].loc)
+        return Leaf('oneshot.closed', getattr(s, 'cid', None))
+
+    @M.reg('Sender::is_closed')
+    def sender_is_closed(ip, pc, args, dt):
+        return bool_s(z3.BoolVal(bool(getattr(ip.path, 'receiver_dropped', False))))
 
     @M.reg('oneshot::channel')
     def oneshot_channel(ip, pc, args, dt):
